@@ -21,16 +21,12 @@ PKGS = ("inference", "parser", "infocf")
 def apply_variant(root, tmp, v):
     for pkg in PKGS:
         shutil.copytree(os.path.join(root, pkg), os.path.join(tmp, pkg), ignore=shutil.ignore_patterns("__pycache__"))
-    if v.get("transform") == "ast_unparse":
-        # whole-tree rewrite: comments dropped, layout and parenthesisation normalised by an ast round trip
-        import ast
-        import glob
-        for f in glob.glob(os.path.join(tmp, "inference", "*.py")) + [os.path.join(tmp, "parser", "Wrappers.py"), os.path.join(tmp, "parser", "myVisitor.py")]:
-            try:
-                src = open(f).read()
-                open(f, "w").write(ast.unparse(ast.parse(src)) + "\n")
-            except (OSError, SyntaxError):
-                return "does-not-compile"
+    if v.get("transform"):
+        from vlib import transforms
+        try:
+            {"ast_unparse": transforms.ast_roundtrip, "alpha_rename": transforms.alpha_rename}[v["transform"]](tmp)
+        except (OSError, SyntaxError):
+            return "does-not-compile"
         return "ok"
     if v.get("patch"):
         r = subprocess.run(["patch", "-p1", "-s", "-i", v["patch"]], cwd=tmp, capture_output=True, text=True)
@@ -101,6 +97,8 @@ def load_variants():
     allp = [c["property_id"] for c in json.load(open(os.path.join(VERIF, "MANIFEST.json")))["checks"]]
     vs.append({"id": "s-global-ast-roundtrip", "expect": "silent", "props": allp, "transform": "ast_unparse",
                "note": "every hand-written source file rewritten by ast.unparse (comments gone, layout normalised)"})
+    vs.append({"id": "s-global-alpha-rename", "expect": "silent", "props": allp, "transform": "alpha_rename",
+               "note": "every local variable of every function renamed"})
     for mp in sorted(glob.glob(os.path.join(VERIF, "seeded", "*", "meta.json"))):
         m = json.load(open(mp))
         d = os.path.dirname(mp)
